@@ -334,6 +334,12 @@ class Spec:
 
 
 def oracle_sm(case, res):
+    if any(x == 0 for x in res.get("refcount_only", [])):
+        # Hook / ContextualHook exist to keep hook objects free of reference cycles: `del` alone must destroy them
+        i = res["refcount_only"].index(0)
+        return ({"step": None, "op": ["del", i],
+                 "what": f"hook object {i} was only destroyed by the cycle collector (it is part of a reference cycle)"},
+                {"kind": "reference_cycle"})
     s = Spec(case["nmods"])
     for i, (o, out) in enumerate(zip(case["ops"], res["trace"])):
         r = s.step(o, out)
@@ -593,10 +599,21 @@ def candidate_listed():
     return any(k.get("property") == ID and k.get("match") == CANDIDATE_SIG for k in F.load_known().get("findings", []))
 
 
+def run_impl_parallel(cases):
+    """the implementation side in several fresh interpreters (each case is independent)"""
+    import concurrent.futures as cf
+    k = max(1, min(F.JOBS, 8, len(cases) // 50))
+    size = (len(cases) + k - 1) // k
+    chunks = [cases[i:i + size] for i in range(0, len(cases), size)]
+    with cf.ThreadPoolExecutor(k) as ex:
+        parts = list(ex.map(lambda ch: F.run_impl(IMPL, {"cases": ch}, timeout=3000), chunks))
+    return [r for part in parts for r in part]
+
+
 def run(ctx):
     rng = random.Random(ctx["seed"])
     quick = ctx["tier"] == "quick"
-    n_sm, n_num = (360, 240) if quick else (5000, 3000)
+    n_sm, n_num = (360, 240) if quick else (4000, 3000)
     cases = load_corpus()
     for i in range(n_sm):
         stream = "fault" if i % 8 == 7 else ("malformed" if i % 4 == 3 else "valid")
@@ -607,7 +624,7 @@ def run(ctx):
     if not quick:
         cases += exhaustive_sm_cases(4)
         exhaustive = True
-    impl = F.run_impl(IMPL, {"cases": cases})
+    impl = run_impl_parallel(cases)
     model = F.eval_terms(ID, HEADER, [q_case(c) for c in cases], shard=max(40, len(cases) // (2 * F.JOBS) + 1))
     mismatches, oracle_fail, candidates = [], [], []
     listed = candidate_listed()
@@ -670,7 +687,7 @@ def minimise(case, rounds=40):
     d, sig = failing(case)
     if d is None:
         return case, None
-    ops = case["ops"][: d["step"] + 1]
+    ops = case["ops"][: d["step"] + 1] if d["step"] is not None else list(case["ops"])
     chunk = max(1, len(ops) // 2)
     for _ in range(rounds):
         cands = []
@@ -684,7 +701,7 @@ def minimise(case, rounds=40):
             for c, ri in zip(cands, res):
                 dd, s2 = oracle_sm(dict(case, ops=c), ri)
                 if dd is not None and s2 == sig:
-                    better = c[: dd["step"] + 1]
+                    better = c[: dd["step"] + 1] if dd["step"] is not None else c
                     break
         if better is not None:
             ops = better
